@@ -106,6 +106,14 @@ def run_case(job):
                 process_tensors=[ipt], parameters=pars, start_time=start,
                 dt=dt, num_steps=m, record_all=rec_all, progress_type="silent")
             times, states = dyn.times, dyn.states
+            if rec_all:
+                # the front end state_gradient reports the same labelled dynamics
+                sg = oqupy.state_gradient(system=psys, initial_state=PLUS, target_derivative=PLUS.T.copy(),
+                                          process_tensors=[ipt], parameters=pars, start_time=start, progress_type="silent")
+                st = np.asarray(sg["dynamics"].times, dtype=float)
+                if len(st) != len(times) or np.max(np.abs(st - np.asarray(times, dtype=float))) > 1e-12:
+                    out.append({"what": "state_gradient-labels", "expected_first": float(times[0]), "observed_first": float(st[0]),
+                                "observed_len": len(st)})
         elif api == "tebd":
             chain = oqupy.SystemChain([2, 2])
             chain.add_site_hamiltonian(0, h)
